@@ -3,6 +3,7 @@
 //!   kind 0 Cal / 3 CalType::Cal      : <cal>
 //!   kind 1 UnionCal / 2 CalType::UnionCal : ncals <cal>* has_settle [nsettle <cal>*]
 //!   kind 4 NamedCal / 5 CalType::NamedCal : len <char codes>
+//!   kind 14 / 15 : as 4 / 5, the named calendar loaded from a document {"name": <the caller's spelling>}
 //!   kind 10 / 11 / 12 / 13 : as 0 / 1 / 2 / 3 with every member calendar restored from a saved document that lists the
 //!                            holidays in supply order (the Deserialize path instead of the constructor)
 //!   <cal> = nmask mask* nhols hols*
@@ -97,6 +98,17 @@ pub fn read_anycal(r: &mut Rd) -> Result<AnyCal, ()> {
         2 | 12 => AnyCal::T(CalType::UnionCal(read_union(r, kind == 12))),
         4 => AnyCal::N(NamedCal::try_new(&read_name(r)).map_err(|_| ())?),
         5 => AnyCal::T(CalType::NamedCal(NamedCal::try_new(&read_name(r)).map_err(|_| ())?)),
+        // 14 / 15: the named calendar LOADED from a hand-written document carrying the caller's spelling of the name
+        14 | 15 => {
+            let name = read_name(r);
+            let doc = format!("{{\"name\":{}}}", serde_json::to_string(&name).map_err(|_| ())?);
+            let n = <NamedCal as rateslib::json::JSON>::from_json(&doc).map_err(|_| ())?;
+            if kind == 14 {
+                AnyCal::N(n)
+            } else {
+                AnyCal::T(CalType::NamedCal(n))
+            }
+        }
         _ => panic!("bad calendar kind"),
     })
 }
